@@ -57,8 +57,8 @@ impl Prop for Framing {
             let systematic = first == SYS_MODE;
             if systematic {
                 let corpus = all_corpus();
-                let idx = w.tape.draw(corpus.len());
-                let script = corpus[idx].clone();
+                let idx = w.tape.draw(corpus.len() + frames::N_BIG_BOUNDARY);
+                let script = if idx < corpus.len() { corpus[idx].clone() } else { frames::big_boundary_stream(idx - corpus.len()) };
                 let len = script.stream().len();
                 let style = w.tape.draw(4);
                 w.cfg = Cfg::plain();
@@ -298,6 +298,29 @@ impl Prop for Framing {
         let mut tapes = Vec::new();
         let corpus = all_corpus();
         let n_short = frames::corpus().len();
+        // big boundary family: totals within two bytes of 256 x {127..129, 255..257, 511..513}; whole
+        // and strided delivery, a few cuts near the end; for C07 with every / every 2nd / 3rd / 5th
+        // pending poll abandoned
+        for j in 0..frames::N_BIG_BOUNDARY {
+            let idx = (corpus.len() + j) as u32;
+            let len = frames::big_boundary_stream(j).stream().len();
+            let ks: Vec<u32> = if self.cancel { vec![0, 1, 2, 4] } else { vec![0] };
+            for k in &ks {
+                let tail = |mut v: Vec<u32>| {
+                    if self.cancel {
+                        v.push(*k);
+                    }
+                    v.push(0); // api: Connection's own methods
+                    v.push(len as u32); // no transient failure
+                    v
+                };
+                tapes.push(tail(vec![SYS_MODE, idx, 0]));
+                tapes.push(tail(vec![SYS_MODE, idx, 3]));
+                for back in [1usize, 2, 255, 256, 257, 300] {
+                    tapes.push(tail(vec![SYS_MODE, idx, 1, (len - 1 - back) as u32]));
+                }
+            }
+        }
         for (idx, s) in corpus.iter().enumerate() {
             let len = s.stream().len();
             let idx = idx as u32;
